@@ -259,6 +259,83 @@ def explore_triples(tier, seed=0):
     return val["triples"], hit, val["wall"]
 
 
+# ---- SAST-driven codemods in one run: their findings name lines of the ORIGINAL files (the result files are not refreshed) ----
+DENSE_SONAR = {
+    # sites of two codemods on neighbouring lines: the first one's edit changes the number of lines right below / above the other's
+    "src": "import random\nimport tempfile\n\n\ndef f():\n    alpha = random.random()\n    name = tempfile.mktemp()\n    omega = random.random()\n    return alpha, name, omega\n",
+    "findings": [("python:S2245", 6, 12, 27), ("python:S5445", 7, 11, 28)],
+}
+
+
+def sast_seeds(tool):
+    out = {}
+    for sd in progspace.load_seeds():
+        if sd.tool == tool and sd.kind == "trigger" and sd.batchable and sd.compiles:
+            out.setdefault(sd.codemod, sd)
+    return out
+
+
+def sast_pairs(tier):
+    sonar = sorted(sast_seeds("sonar"))
+    pairs = [("sonar", a, b) for a, b in itertools.permutations(sonar, 2)]
+    if tier == "quick":
+        # every codemod first and second at least once with each of the line-count changing ones
+        movers = {"sonar:python/secure-tempfile", "sonar:python/secure-random", "sonar:python/django-receiver-on-top", "sonar:python/remove-assertion-in-pytest-raises",
+                  "sonar:python/django-model-without-dunder-str", "sonar:python/fix-missing-self-or-cls", "sonar:python/exception-without-raise"}
+        pairs = [p for p in pairs if p[1] in movers or p[2] in movers]
+    else:
+        sg = sorted(sast_seeds("semgrep"))
+        pairs += [("semgrep", a, b) for a, b in itertools.permutations(sg, 2)]
+    return pairs
+
+
+def sast_pair_job(arg):
+    from . import resultfiles
+
+    tool, k1, k2 = arg
+    seeds = sast_seeds(tool)
+    s1, s2 = seeds[k1], seeds[k2]
+    files, docs = {}, []
+    for name, (x, y) in (("ab.py", (s1, s2)), ("ba.py", (s2, s1))):
+        top = x.input if x.input.endswith("\n") else x.input + "\n"
+        data = (top + y.input).encode()  # no blank line in between: the second seed's first line follows the first seed's last
+        if not progspace.py_ok(data, True):
+            continue
+        files[name] = data
+        docs += [resultfiles.relocate(tool, x.results, name), resultfiles.relocate(tool, y.results, name, dline=top.count("\n"))]
+    if tool == "sonar":
+        files["dense.py"] = DENSE_SONAR["src"].encode()
+        docs.append({"hotspots" if r == "python:S2245" else "issues": [] for r, *_ in DENSE_SONAR["findings"]})
+        for r, line, c0, c1 in DENSE_SONAR["findings"]:
+            e = {"status": "TO_REVIEW" if r == "python:S2245" else "OPEN", "component": "proj:dense.py", "key": f"D{line}",
+                 "textRange": {"startLine": line, "endLine": line, "startOffset": c0, "endOffset": c1}}
+            e["ruleKey" if r == "python:S2245" else "rule"] = r
+            docs[-1]["hotspots" if r == "python:S2245" else "issues"].append(e)
+    argv_res, res = resultfiles.argv_and_files(tool, docs)
+    ks = [k1, k2]
+    b = drive.run_inproc(drive.Job(files=files, argv=["{dir}", "--codemod-include", ",".join(ks)] + argv_res, results=res))
+    if b.error:
+        raise core.HarnessError(b.error)
+    chain, tree = [], files
+    for k in ks:
+        o = drive.run_inproc(drive.Job(files=tree, argv=["{dir}", "--codemod-include", k] + argv_res, results=res))
+        if o.error:
+            raise core.HarnessError(o.error)
+        chain.append(lite(o, 0))
+        tree = o.final
+    return {"seq": tuple(ks), "tool": tool, "files": files, "batch": lite(b, 0), "chain": chain}
+
+
+def explore_sast_pairs(tier, seed=0):
+    def compute():
+        t0 = time.time()
+        res = drive.pmap("cmverif.seqspace:sast_pair_job", drive.seed_rotate(sast_pairs(tier), seed))
+        return {"pairs": {(r["tool"],) + r["seq"]: r for r in res}, "wall": time.time() - t0}
+
+    val, hit = cache.cached(f"seqspace-sast-{tier}", compute)
+    return val["pairs"], hit, val["wall"]
+
+
 def default_set_project():
     """One canonical trigger file per batchable pixee codemod + the collision file, manifests and an unparseable file."""
     files = {
